@@ -1141,6 +1141,7 @@ func checkReportedEndpoints(c *Ctx) {
 			}
 			n++
 			al, ok := rp.Ret.Results[0].(*ssa.Alloc)
+			helperCall, _ := rp.Ret.Results[0].(*ssa.Call)
 			if !ok {
 				if ld, ok2 := rp.Ret.Results[0].(*ssa.UnOp); ok2 {
 					// defer-spilled result: find the alloc stored into the result slot
@@ -1150,17 +1151,57 @@ func checkReportedEndpoints(c *Ctx) {
 								if a2, ok5 := st.Val.(*ssa.Alloc); ok5 {
 									al = a2
 								}
+								if c2, ok5 := st.Val.(*ssa.Call); ok5 && rp.Path.On(c2.Block()) {
+									helperCall = c2
+								}
 							}
 						}
 					}
 				}
 			}
+			var src, dst *core.Term
 			if al == nil {
-				R.Fail("R06.6", w.fn+"#run-literal", rp.Ret.Pos(), w.fn, "the returned run is not a literal: undecided")
-				continue
+				// the run is assembled by a helper (a method of the same config, or a function of the config's fields): its literal,
+				// re-expressed with the arguments of the call
+				if call := helperCall; call != nil && !call.Common().IsInvoke() {
+					if g := call.Common().StaticCallee(); g != nil && core.InModule(g) && len(g.Blocks) > 0 {
+						grps, _ := core.ReturnPaths(c.P, g, 200)
+						for _, grp := range grps {
+							gal, isAl := grp.Ret.Results[0].(*ssa.Alloc)
+							if grp.Ret.Block().Comment == "recover" || !isAl {
+								continue
+							}
+							lift := func(t *core.Term) *core.Term {
+								return t.Subst(func(x *core.Term) *core.Term {
+									switch x.Op {
+									case "recv":
+										if len(call.Common().Args) > 0 {
+											return rp.Env.Term(call.Common().Args[0])
+										}
+									case "param":
+										for k, p := range g.Params {
+											if p.Name() == x.Name && k < len(call.Common().Args) {
+												return rp.Env.Term(call.Common().Args[k])
+											}
+										}
+									}
+									return nil
+								})
+							}
+							src = lift(grp.Env.LoadField(gal, "Source", grp.Ret, types.Typ[types.Invalid]))
+							dst = lift(grp.Env.LoadField(gal, "Destination", grp.Ret, types.Typ[types.Invalid]))
+							break
+						}
+					}
+				}
+				if src == nil {
+					R.Fail("R06.6", w.fn+"#run-literal", rp.Ret.Pos(), w.fn, "the returned run is not a literal: undecided")
+					continue
+				}
+			} else {
+				src = rp.Env.LoadField(al, "Source", rp.Ret, types.Typ[types.Invalid])
+				dst = rp.Env.LoadField(al, "Destination", rp.Ret, types.Typ[types.Invalid])
 			}
-			src := rp.Env.LoadField(al, "Source", rp.Ret, types.Typ[types.Invalid])
-			dst := rp.Env.LoadField(al, "Destination", rp.Ret, types.Typ[types.Invalid])
 			sIP, sPort := core.ProjField(src, "IPAddress").String(), core.ProjField(src, "Port").String()
 			dIP, dPort := core.ProjField(dst, "IPAddress").String(), core.ProjField(dst, "Port").String()
 			// what the config fields hold when the run is reported (the builder reads the same fields)
@@ -1180,7 +1221,11 @@ func checkReportedEndpoints(c *Ctx) {
 				}
 				return val
 			}
-			ok1 := strings.Contains(sIP, cur(w.srcIP)) && strings.Contains(sPort, cur(w.srcPort)) && strings.Contains(dIP, cur(w.dstIP)) && (w.dstPort == "" || strings.Contains(dPort, cur(w.dstPort)))
+			has := func(got, name string) bool {
+				// a helper reads the config field itself when it is called (after the stores of this path)
+				return strings.Contains(got, cur(name)) || al == nil && strings.Contains(got, name)
+			}
+			ok1 := has(sIP, w.srcIP) && has(sPort, w.srcPort) && has(dIP, w.dstIP) && (w.dstPort == "" || has(dPort, w.dstPort))
 			R.Check(ok1, "R06.6", w.fn+"#endpoints", rp.Ret.Pos(), w.fn, "reported endpoints come from the fields that were put on the wire", fmt.Sprintf("reported endpoints source=%s:%s destination=%s:%s do not originate from %s/%s and %s/%s", sIP, sPort, dIP, dPort, w.srcIP, w.srcPort, w.dstIP, w.dstPort))
 			break
 		}
